@@ -765,7 +765,7 @@ type dTouchCtx struct {
 func (c *dTouchCtx) touch() {
 	c.mu.Lock()
 	c.n++
-	fire := c.n == c.k
+	fire := c.n == c.k && c.err == nil
 	if fire {
 		c.err = context.Canceled
 		close(c.done)
@@ -777,6 +777,14 @@ func (c *dTouchCtx) touch() {
 		}
 		time.Sleep(150 * time.Microsecond) // let the cancellation propagate to derived contexts
 	}
+}
+func (c *dTouchCtx) expire() {
+	c.mu.Lock()
+	if c.err == nil {
+		c.err = context.DeadlineExceeded
+		close(c.done)
+	}
+	c.mu.Unlock()
 }
 func (c *dTouchCtx) Done() <-chan struct{} { c.touch(); return c.done }
 func (c *dTouchCtx) Err() error {
@@ -1037,11 +1045,14 @@ func (d *dDriver) call(k string, p, c int, gate string, cancelAt, us int) {
 	base := context.WithValue(context.Background(), dRpcKey{}, r)
 	var ctx context.Context
 	w := d.w
+	// every CNI request has a deadline (the plugin's gRPC timeout); here 2.5 s
 	if cancelAt > 0 {
-		ctx = &dTouchCtx{Context: base, k: cancelAt, done: make(chan struct{}), on: func() { w.Emit(vt.M{"ev": "cancel", "r": r}) }}
-		f.cancel = func() {}
+		tc := &dTouchCtx{Context: base, k: cancelAt, done: make(chan struct{}), on: func() { w.Emit(vt.M{"ev": "cancel", "r": r}) }}
+		ctx = tc
+		tm := time.AfterFunc(2500*time.Millisecond, tc.expire)
+		f.cancel = func() { tm.Stop(); tc.expire() }
 	} else {
-		ctx, f.cancel = context.WithCancel(base)
+		ctx, f.cancel = context.WithTimeout(base, 2500*time.Millisecond)
 	}
 	if s != d.lock() {
 		d.s.x.mu.Unlock()
@@ -1067,11 +1078,13 @@ func (d *dDriver) call(k string, p, c int, gate string, cancelAt, us int) {
 	d.flights[r] = f
 	x := s.x
 	svc := s.svc
+	cancelCtx := f.cancel
 	go func() {
 		ok, code, e, a := dDoRPC(svc, ctx, k, p, c)
 		x.mu.Lock()
 		x.emit(vt.M{"ev": "rpc_ret", "r": r, "k": k, "p": p, "ok": ok, "code": code, "e": e, "a": a})
 		x.mu.Unlock()
+		cancelCtx()
 		close(f.done)
 	}()
 	if us > 0 {
